@@ -77,7 +77,7 @@ def _geom(h, k, s, d, padding):
     return (h - dk) // s + 1, 0, 0
 
 
-def conv2d(x, w, bias, xq, wq, yq, opts, dtype, depthwise=False, dm=1):
+def conv2d(x, w, bias, xq, wq, yq, opts, dtype, depthwise=False, dm=1, float_product=False):
     """x [N,H,W,C] int64, w OHWI (or 1HWO for depthwise)"""
     n, h, wd, c = x.shape
     sy, sx = opts["StrideH"], opts["StrideW"]
@@ -111,7 +111,13 @@ def conv2d(x, w, bias, xq, wq, yq, opts, dtype, depthwise=False, dm=1):
     out = np.zeros_like(acc)
     ws = wq["scale"]
     for oc in range(co):
-        real = float(np.float64(np.float32(xq["scale"][0])) * np.float64(np.float32(ws[oc if len(ws) == co else 0])) / np.float64(np.float32(yq["scale"][0])))
+        s_w = np.float32(ws[oc if len(ws) == co else 0])
+        if dtype == "uint8" or float_product:
+            # TFLite GetQuantizedConvolutionMultipler (uint8 convolutions, every FULLY_CONNECTED): the product of the two float32 scales
+            # is formed in float32 and only then widened
+            real = float(np.float64(np.float32(xq["scale"][0]) * s_w) / np.float64(np.float32(yq["scale"][0])))
+        else:
+            real = float(np.float64(np.float32(xq["scale"][0])) * np.float64(s_w) / np.float64(np.float32(yq["scale"][0])))
         m, e = Q.quantize_multiplier(real)
         if dtype == "int16":
             # 16x8 kernels accumulate in 64 bits and use the reduced-multiplier form of MultiplyByQuantizedMultiplier(int64)
@@ -203,7 +209,7 @@ def eval_op(op, ins, t_in, t_out):
         x = ins[0].reshape(-1, ins[1].shape[1])
         w = ins[1].reshape(ins[1].shape[0], 1, 1, ins[1].shape[1])
         y = conv2d(x.reshape(x.shape[0], 1, 1, x.shape[1]), w, ins[2] if len(ins) > 2 else None, t_in[0]["quant"], t_in[1]["quant"], yq,
-                   dict(StrideH=1, StrideW=1, Padding=1, FusedActivationFunction=o.get("FusedActivationFunction", 0)), dt)
+                   dict(StrideH=1, StrideW=1, Padding=1, FusedActivationFunction=o.get("FusedActivationFunction", 0)), dt, float_product=True)
         return [y.reshape(t_out[0]["shape"])]
     if name == "MAX_POOL_2D":
         return [pool(ins[0], o, dt, "max", yq)]
